@@ -343,20 +343,16 @@ func (p *parser) quant(forall bool) Expr {
 		if t.s != "in" {
 			panic("'in' or ':' expected in quantifier")
 		}
-		if p.peek().k == "id" && p.peek().s == "keys" {
+		lo := p.add()
+		if p.isOp("..") {
 			p.next()
-			p.expect("(")
-			m := p.expr()
-			p.expect(")")
-			for _, n := range names {
-				q.Vars = append(q.Vars, QVar{Name: n, Keys: m})
-			}
-		} else {
-			lo := p.add()
-			p.expect("..")
 			hi := p.add()
 			for _, n := range names {
 				q.Vars = append(q.Vars, QVar{Name: n, Lo: lo, Hi: hi})
+			}
+		} else {
+			for _, n := range names {
+				q.Vars = append(q.Vars, QVar{Name: n, Keys: lo})
 			}
 		}
 	}
@@ -620,4 +616,31 @@ func clauseActive(c Clause, prop string) bool {
 		return true
 	}
 	return hasTagFor(c.Tags, prop)
+}
+
+// SplitConj splits a clause into conjuncts that can be proved separately:
+// A && B, P ==> (A && B), forall x :: (A && B).
+func SplitConj(x Expr) []Expr {
+	switch n := x.(type) {
+	case *EBinary:
+		if n.Op == "&&" {
+			return append(SplitConj(n.X), SplitConj(n.Y)...)
+		}
+		if n.Op == "==>" {
+			var out []Expr
+			for _, c := range SplitConj(n.Y) {
+				out = append(out, &EBinary{"==>", n.X, c})
+			}
+			return out
+		}
+	case *EQuant:
+		if n.Forall {
+			var out []Expr
+			for _, c := range SplitConj(n.Body) {
+				out = append(out, &EQuant{Forall: true, Vars: n.Vars, Body: c})
+			}
+			return out
+		}
+	}
+	return []Expr{x}
 }
